@@ -265,14 +265,28 @@ func (p *Parser) parseBuffer(buf []byte, last bool) (err error) {
 	depth := len(p.starts)
 	for off = 0; off < len(buf); off++ {
 		b = buf[off]
-		if 256 < len(p.mode) && p.mode[256] == 't' {
-			switch b {
-			case ':', '[', '{', '/', '"', '\'':
-				// A token continued from an earlier buffer ends here. Handle
-				// that the same way the scan in tokenStart does.
-				p.addToken(off)
-				off--
-				goto deliver
+		if 256 < len(p.mode) {
+			switch p.mode[256] {
+			case 't':
+				switch b {
+				case ':', '[', '{', '/', '"', '\'':
+					// A token continued from an earlier buffer ends here. Handle
+					// that the same way the scan in tokenStart does.
+					p.addToken(off)
+					off--
+					goto deliver
+				}
+			case 'n':
+				switch b {
+				case '[', '{', '/':
+					// Add and, on the top level, deliver the number before
+					// starting on what follows.
+					if err = p.add(p.num.AsNum(), off); err != nil {
+						return
+					}
+					off--
+					goto deliver
+				}
 			}
 		}
 		switch p.mode[b] {
